@@ -87,7 +87,7 @@ def replay_file(path, repo, verif):
 
 PROACTIVE = {
     'C15': [['fmt-search', '7', '{seed}']],
-    'C13': [['fmt-search', '6', '{seed}'], ['c13-primnames']],
+    'C13': [['fmt-search', '6', '{seed}'], ['c13-primnames'], ['c13-text']],
     'C08': [['c08-reach'], ['c08-compactas'], ['c08-resolve'], ['c08-flatten'], ['c08-typeir']],
     'C18': [['c18-upcast']],
     'C16': [['c16-builders'], ['c16-subst'], ['c08-flatten']],
